@@ -523,6 +523,8 @@ def reduce(
         result = tn.round(
             function(result, d[key], **kwargs), eps=eps, rmax=rmax, algorithm=algorithm
         )
+    if i == 0:
+        result = result.clone()  # A single element was never combined: do not hand the caller's own tensor back
     return result
 
 
